@@ -465,6 +465,7 @@ def call_watched(fn, timeout=6.0):
     """fn() on a daemon thread: its value, or the exception it raised (re-raised here), or Hang after `timeout` seconds (the stuck
     thread is then asked to exit with an asynchronous SystemExit so that a busy loop does not keep a core for the rest of the check)."""
     box = []
+    before = set(_threading.enumerate())
 
     def target():
         try:
@@ -475,9 +476,12 @@ def call_watched(fn, timeout=6.0):
     th.start()
     th.join(timeout)
     if not box:
+        # ask the stuck thread AND every thread started since (the hung call's workers, which may be spinning) to exit
         try:
             import ctypes
-            ctypes.pythonapi.PyThreadState_SetAsyncExc(ctypes.c_ulong(th.ident), ctypes.py_object(SystemExit))
+            for t in _threading.enumerate():
+                if t is th or (t not in before and t is not _threading.current_thread()):
+                    ctypes.pythonapi.PyThreadState_SetAsyncExc(ctypes.c_ulong(t.ident), ctypes.py_object(SystemExit))
         except Exception:       # noqa
             pass
         HANGS[0] += 1
